@@ -35,11 +35,14 @@ Seqs(A, n) == IF n = 0 THEN {<<>>} ELSE LET r == Seqs(A, n - 1) IN r \cup { Appe
 Init == case = [op |-> "none"] /\ exp = Null
 Next == /\ case = [op |-> "none"]
         /\ CASE FAMILY = "ops" -> \E c \in OpsCases : case' = c /\ exp' = Bool(Decision(c.op, c.vt, c.r, c.v, Now))
+             [] FAMILY = "presence" -> \E v \in {"present", "absent"}, res \in {"missing", "null", "value"}, form \in {"key", "tag", "path"} :
+                                          case' = [op |-> "presence", value |-> v, res |-> res, form |-> form] /\ exp' = Bool(Presence(v, res))
              [] FAMILY = "strings" -> \E s \in Seqs(PolicyChars, 3) : case' = [op |-> "literal", s |-> s] /\ exp' = Str(s)
              [] FAMILY = "durations" -> \E n \in {0, 1, 59, 60, 61, 3599, 3600, 3661, 86399, 86400, 90061, 1000000} \cup { 86400 * d : d \in {0, 1, 2, 30, 365} } \cup {43200} :
                                            case' = [op |-> "duration", secs |-> n] /\ exp' = Dur(Mul(FromInt(n), Mega))
 Spec == Init /\ [][Next]_vars
 \* the synonyms name the same relation; le / lte is the converse of gt with equality: x <= y iff not (x > y)
+PresenceIsComplement == case.op = "presence" => exp = Bool(~Presence(IF case.value = "present" THEN "absent" ELSE "present", case.res))
 Synonyms == (case.op \in Ops /\ case.vt = "none") =>
      /\ (case.op = "le" => exp = Bool(Decision("lte", "none", case.r, case.v, Now)))
      /\ (case.op = "lte" => exp = Bool(~Decision("gt", "none", case.r, case.v, Now)))
